@@ -776,6 +776,18 @@ func (tb *TB) atomOfRes(g Guard, res func(ssa.Value) ssa.Value) Atom {
 			return Atom{Kind: "cmp", Op: op, X: X, Y: Y, Pol: true, If: g.If}
 		}
 	case *ssa.Call:
+		// bytes.Equal(a, b) is a == b on the contents (string(a) == string(b))
+		if n := tb.resolvedCalleeName(&x.Call); n == "bytes.Equal" && len(x.Call.Args) == 2 {
+			X, Y := tb.Term(res(x.Call.Args[0])), tb.Term(res(x.Call.Args[1]))
+			if isConstTerm(X) && !isConstTerm(Y) {
+				X, Y = Y, X
+			}
+			op := "=="
+			if !pol {
+				op = "!="
+			}
+			return Atom{Kind: "cmp", Op: op, X: X, Y: Y, Pol: true, If: g.If}
+		}
 		return Atom{Kind: "call", Call: tb.Term(x), Pol: pol, If: g.If}
 	case *ssa.Const:
 		if x.Value != nil && x.Value.Kind() == constant.Bool {
